@@ -622,7 +622,8 @@ def _coll_oracle(interp, env, f, args, t, bb, path):
         by_ref = (f.get("resolved", {}).get("key") or "").startswith("<&") or ((f.get("gargs") or [""])[0].startswith("&")) or not isinstance(a0, Vec) or a0.borrowed
         if nm in ("retain", "retain_mut") and len(args) == 2 and sa == "alloc::vec::Vec" and v0.lo is None:
             # the predicate may be a stateful FnMut (a counter captured by value): it lives in a cell and is called through a reference
-            cell = new_vec(interp, [args[1]])
+            # (its captures by reference point into the CALLER's frame: tagged with it before the closure moves into the cell)
+            cell = new_vec(interp, [interp.freeze(env, args[1])])
             keep = []
             for i_ in range(len(items)):
                 r_ = _call1(interp, HRef(cell.vid, 0), [HRef(v0.vid, off + i_)])
